@@ -13,7 +13,7 @@ theorem retransmission_is_retained_request (fuel : Nat) (arm : Nat × Nat) (s : 
     (hx : Req.getCtx s c = some x) (hp : Req.getPipe s p = some pp) (hidle : pp.hold = false)
     (hre : x.sendMsg = none) (body : Bytes) (hb : x.reqMsg = some body) :
     (p, Ev.tx p (Req.idBytes x.reqID) body) ∈ (Req.pump (fuel + 1) arm s).2 := by
-  simp [Req.pump, hs, hr, hx, hp, hidle, hre, hb]
+  simp [Req.pump, Req.pumpStep, hs, hr, hx, hp, hidle, hre, hb]
 
 /-- the retry timer never fires early: in one round, a context whose timer is not yet due is left untouched -/
 theorem retry_not_early (now : Nat) (s : Req.State) (c : Req.Ctx) (t : Req.Timer)
@@ -23,13 +23,33 @@ theorem retry_not_early (now : Nat) (s : Req.State) (c : Req.Ctx) (t : Req.Timer
   have h2 : ¬ (t.tmax + t.period + Req.slack ≤ now) := by omega
   simp [Req.timerRound, hget, ht, h1, h2]
 
-/-- … and once overdue it has fired -/
+/-- … and once overdue it has fired (the outcomes differ only in the order in which the pipes that transmitted
+    re-entered the ready queue, see `ready_variants_differ_only_in_ready_order`) -/
 theorem retry_when_overdue (now : Nat) (s : Req.State) (c : Req.Ctx) (t : Req.Timer)
     (hget : Req.getCtx s c.id = some c) (ht : c.timer = some t) (hdue : t.tmax + t.period + Req.slack ≤ now) :
     Req.timerRound now [(s, [])] [c.id] =
-      [((Req.resend (Req.setCtx s c.id (fun y => { y with timer := none })) (t.tmin + t.period, now) c.id t.id).1,
-        (Req.resend (Req.setCtx s c.id (fun y => { y with timer := none })) (t.tmin + t.period, now) c.id t.id).2)] := by
+      Req.readyVariants ((Req.resend (Req.setCtx s c.id (fun y => { y with timer := none })) (t.tmin + t.period, now) c.id t.id).1,
+        (Req.resend (Req.setCtx s c.id (fun y => { y with timer := none })) (t.tmin + t.period, now) c.id t.id).2) := by
   simp [Req.timerRound, hget, ht, hdue]
+
+/-- the concurrency of the per-pipe sender goroutines is visible only in the order of the ready queue: every variant
+    has the same events, the same transmission log, the same contexts and registrations, and the same ready pipes -/
+theorem ready_variants_differ_only_in_ready_order (st : Req.State × List (Nat × Ev)) :
+    ∀ r ∈ Req.readyVariants st, r.2 = st.2 ∧ r.1.txlog = st.1.txlog ∧ r.1.ctxs = st.1.ctxs ∧ r.1.ctxByID = st.1.ctxByID ∧
+      r.1.sendQ = st.1.sendQ ∧ r.1.pipes = st.1.pipes ∧ r.1.readyQ.length = st.1.readyQ.length := by
+  intro r hr
+  unfold Req.readyVariants at hr
+  simp only [] at hr
+  split at hr
+  · simp at hr; subst hr; simp
+  · rename_i hc
+    simp only [List.mem_map] at hr
+    obtain ⟨m, hm, rfl⟩ := hr
+    refine ⟨rfl, rfl, rfl, rfl, rfl, rfl, ?_⟩
+    simp only [Bool.or_eq_true, decide_eq_true_eq, not_or, bne_iff_ne, ne_eq, Decidable.not_not] at hc
+    have hl := Req.perms_length _ m hm
+    conv => rhs; rw [hc.2]
+    simp [hl]
 
 /-- once answered, cancelled or closed a request is never transmitted again: a stale timer (or a stale loss
     notification) finds a different id, or no retained request, and does nothing -/
@@ -52,7 +72,7 @@ theorem cancel_drops_request (s : Req.State) (c : Nat) (x : Req.Ctx) (hget : Req
   simp only [hget] at hy
   rw [Req.getCtx_setCtx] at hy
   case hf => intro y; rfl
-  have hx : Req.getCtx { Req.cancelSend s c with ctxByID := (Req.cancelSend s c).ctxByID.filter (fun e => !(e.1 == x.reqID && x.reqID != 0)) } c = some x := hget
+  have hx : Req.getCtx { Req.cancelSend s c with ctxByID := (Req.cancelSend s c).ctxByID.filter (fun e => !(e.1 == x.reqID && x.reqID != 0) && e.2 != c) } c = some x := hget
   rw [hx] at hy
   have hid := Req.getCtx_id _ _ _ hget
   simp only [Option.map_some, hid, if_true, Option.some.injEq] at hy
